@@ -38,7 +38,7 @@ def msg(e):
 def planted(rng):
     bad = rng.choice(BAD)
     reach = rng.choice([True, False])
-    kind = rng.choice(['condition', 'repeat', 'switch', 'define-unused', 'nested', 'two-sites', 'two-sites'])
+    kind = rng.choice(['condition', 'repeat', 'switch', 'define-unused', 'nested', 'two-sites', 'two-sites', 'switch-expr', 'dict-attr', 'attr-then-dict'])
     if kind == 'condition':
         src = '<div><p tal:condition="flag">${%s}</p>tail</div>' % bad
         vars_ = [['flag', reach]]
@@ -48,6 +48,19 @@ def planted(rng):
     elif kind == 'switch':
         src = '<div tal:switch="v"><p tal:case="1" tal:content="%s">a</p><p tal:case="2">b</p></div>' % bad
         vars_ = [['v', 1 if reach else 2]]
+    elif kind == 'switch-expr':
+        # the invalid expression is the switch expression itself; its value is cached for the cases
+        src = '<div tal:condition="flag"><ul tal:switch="%s"><li tal:case="1">one</li><li tal:case="default">other</li></ul></div>tail' % bad
+        vars_ = [['flag', reach]]
+    elif kind == 'dict-attr':
+        bad = rng.choice(['b///', '1+', 'x===='])          # a statement without a space is a dictionary expression
+        # an invalid dictionary entry of tal:attributes next to a static attribute (the static one is filtered by the dictionary)
+        src = '<div tal:condition="flag"><p class="x" tal:attributes="%s">d</p></div>tail' % bad
+        vars_ = [['flag', reach]]
+    elif kind == 'attr-then-dict':
+        bad = rng.choice(['b///', '1+', 'x===='])
+        src = '<div tal:condition="flag"><p tal:attributes="title t; %s">d</p></div>tail' % bad
+        vars_ = [['flag', reach], ['t', {'str': 'T'}]]
     elif kind == 'define-unused':
         src = '<div tal:condition="flag" tal:define="z 1"><i tal:define="y %s">x</i></div>after' % bad
         vars_ = [['flag', reach]]
